@@ -1528,3 +1528,104 @@ def run_fixture(fx, scratch):
     if _content(f1, enc, fx.get("mask")) != ref:
         out.append(("fixture:%s:via-%s-differs" % (fx["name"], other), "fixture %s: %s -> %s -> %s does not reproduce the file" % (fx["name"], enc, other, enc)))
     return out
+
+
+# ------------------------------------------------------------------------------------------------------------
+# worker processes: the real code runs in forked children, the parent only collects results.  A child that dies
+# (SIGSEGV / SIGABRT from native code, os._exit, kill by the kernel) costs exactly the job it was working on -- that
+# job's result is ("crash", <signal name>) -- and the remaining jobs of its lane continue in a fresh child.
+# ------------------------------------------------------------------------------------------------------------
+def _signame(code):
+    if code is None:
+        return "unknown"
+    if code < 0:
+        try:
+            return signal.Signals(-code).name
+        except ValueError:
+            return "signal-%d" % -code
+    return "exit-%d" % code
+
+
+def _job_worker(conn, handler, jobs, idxs):
+    import os
+    import sys
+
+    try:
+        for i in idxs:
+            conn.send(("start", i))
+            try:
+                r = ("ok", handler(jobs[i]))
+            except BaseException as ex:  # noqa: BLE001 -- a harness problem inside the child: reported, never swallowed
+                import traceback
+
+                r = ("error", "%s: %s\n%s" % (type(ex).__name__, ex, traceback.format_exc()[-1500:]))
+            conn.send(("done", i, r))
+        conn.close()
+    finally:
+        sys.stdout.flush()
+        os._exit(0)  # no atexit handlers of the parent (work-directory cleanup) in the child
+
+
+def run_jobs(jobs, handler, nworkers=3, crash_class=None, crash_cap=3):
+    """Run handler(job) for every job in forked children (`nworkers` lanes, jobs dealt round-robin, each lane in order).
+    Returns a list aligned with jobs: ("ok", result) | ("error", text) | ("crash", signal) | ("skipped", why)."""
+    import collections
+    import multiprocessing as mp
+    from multiprocessing.connection import wait
+
+    ctx = mp.get_context("fork")
+    results = [None] * len(jobs)
+    crashes = collections.Counter()
+    crash_class = crash_class or (lambda job: "any")
+    lanes = [{"pending": collections.deque(range(w, len(jobs), nworkers)), "conn": None, "proc": None, "cur": None}
+             for w in range(max(1, min(nworkers, len(jobs))))]
+
+    def start(lane):
+        keep = collections.deque()
+        for i in lane["pending"]:
+            if crashes[crash_class(jobs[i])] >= crash_cap:
+                results[i] = ("skipped", "crash-cap")    # this class already killed crash_cap children: verdict recorded
+            else:
+                keep.append(i)
+        lane["pending"] = keep
+        lane["conn"] = lane["proc"] = lane["cur"] = None
+        if not keep:
+            return
+        rc, wc = ctx.Pipe(duplex=False)
+        p = ctx.Process(target=_job_worker, args=(wc, handler, jobs, list(keep)))
+        p.start()
+        wc.close()
+        lane.update(proc=p, conn=rc)
+
+    for lane in lanes:
+        start(lane)
+    while any(lane["conn"] is not None for lane in lanes):
+        ready = wait([lane["conn"] for lane in lanes if lane["conn"] is not None])
+        for lane in lanes:
+            if lane["conn"] is None or lane["conn"] not in ready:
+                continue
+            try:
+                msg = lane["conn"].recv()
+            except (EOFError, OSError):
+                lane["proc"].join()
+                code = lane["proc"].exitcode
+                lane["conn"].close()
+                if lane["pending"]:
+                    # died while working on (or about to take) the first pending job
+                    idx = lane["cur"] if lane["cur"] is not None else lane["pending"][0]
+                    results[idx] = ("crash", _signame(code))
+                    crashes[crash_class(jobs[idx])] += 1
+                    while lane["pending"] and lane["pending"][0] != idx:
+                        lane["pending"].popleft()
+                    if lane["pending"]:
+                        lane["pending"].popleft()
+                start(lane)
+                continue
+            if msg[0] == "start":
+                lane["cur"] = msg[1]
+            else:
+                results[msg[1]] = msg[2]
+                lane["cur"] = None
+                if lane["pending"] and lane["pending"][0] == msg[1]:
+                    lane["pending"].popleft()
+    return results
